@@ -303,6 +303,9 @@ type CallOutcome struct {
 	TimedOut bool
 	Hang     bool // timed out and the awaited party provably cannot make progress
 	Dump     string
+	// Returned (set when TimedOut) tells whether the call has come back meanwhile - after the
+	// watchdog cancelled its context a merely slow call ends soon, a stuck one never does.
+	Returned func() bool
 }
 
 // Guard runs f (a service call) with a per-call context cancelled when the call returns
@@ -339,7 +342,7 @@ func Guard(watchdog time.Duration, f func(ctx context.Context) error) CallOutcom
 		out.Dump = d
 		if callWaitsForHandlers(d) && !HandlerAlive(d) {
 			stuck++
-		} else if strings.Contains(d, "PatchDocument") && strings.Contains(d, "chan receive") && !HandlerAlive(d) {
+		} else if patchWaitsForNobody(d) {
 			stuck++
 		} else if ClientSyncStuck(d) {
 			stuck++
@@ -355,6 +358,20 @@ func Guard(watchdog time.Duration, f func(ctx context.Context) error) CallOutcom
 	}
 	out.Hang = stuck == 3
 	cancel()
+	var rmu sync.Mutex
+	back := false
+	out.Returned = func() bool {
+		rmu.Lock()
+		defer rmu.Unlock()
+		if !back {
+			select {
+			case <-ch:
+				back = true
+			default:
+			}
+		}
+		return back
+	}
 	return out
 }
 
@@ -399,6 +416,25 @@ func blockedOnNilChannel(dump string) bool {
 			continue
 		}
 		if strings.Contains(g[:nl], "(nil chan)") && strings.Contains(g[nl:], "github.com/orda-io/orda/") {
+			return true
+		}
+	}
+	return false
+}
+
+// patchWaitsForNobody: the goroutine of a PatchDocument call waits on a channel for the answer
+// of its push-pull handler while no handler goroutine exists (both facts about the SAME dump;
+// the first one about ONE goroutine).
+func patchWaitsForNobody(dump string) bool {
+	if HandlerAlive(dump) {
+		return false
+	}
+	for _, g := range strings.Split(dump, "\n\n") {
+		nl := strings.IndexByte(g, '\n')
+		if nl < 0 {
+			continue
+		}
+		if strings.Contains(g[:nl], "chan receive") && strings.Contains(g[nl:], "service.(*OrdaService).PatchDocument") {
 			return true
 		}
 	}
